@@ -13,12 +13,20 @@
     N <4|8> <hex>                   →  ParseInt32 / ParseInt64 of the text
     Z <int>                         →  <hex of ParseStringZeroToEmpty>
     T <n> <hex>                     →  <hex of stringutil.Truncate(s, n)>
+    V <sep byte> <key hex> <hex>    →  <0|1 ExistsKey(key)> <hex of GetValue(key)>  of NewParamKVSeperate(s, sep, "=")
+    I <int>                         →  <hex of fmt.Sprintf("%d", v)>  (McallerUrl after SetMcallerUrlHash(v))
+    H <int> <ver>                   →  McallerUrlHash that Process() of UdpTxEndPack recomputes from the text alone after
+                                        SetMcallerUrlHash(v) (the hash field reset to 0 first, as after a Read)  |  panic
+    C <0|1>                         →  <IsStatic> <hex of IsStaticContents> after SetStaticContents(b)
+    WS <type>|<ver>|<rec> …         →  <hex of the packs written one after the other>
+    RS <hex> <type>|<ver>|<rec> …   →  ok <bytes left> <type-rec after Read> …  |  fail   (rec = receiving pack)
 
   rec syntax   name=val;name=val   ("-" = empty)   val: i<int> s<hex> l<int,int> b0|b1 n t<hex,hex>
 -/
 import Golib.Udp.Packs
 import Golib.Udp.ParamKV
 import Golib.Udp.Process
+import Golib.Udp.Api
 import Driver.Common
 
 open Udp Drv
@@ -52,8 +60,46 @@ def parseRec (s : String) : Option Rec :=
 def showRec (names : List String) (r : Rec) : String :=
   if names.isEmpty then "-" else ";".intercalate (names.map fun n => s!"{n}={showVal (r n)}")
 
+def parseItem (s : String) : Option (PackT × Int × Rec) :=
+  match s.splitOn "|" with
+  | [t, ver, rec] =>
+    match findPack t, parseInt ver, parseRec rec with
+    | some t, some ver, some x => some (t, ver, x)
+    | _, _, _ => none
+  | _ => none
+
 def answer (line : String) : String :=
   match line.splitOn " " with
+  | "WS" :: items =>
+    match items.mapM parseItem with
+    | some its => hexOf (writeStream its)
+    | none => "bad-op"
+  | "RS" :: hex :: items =>
+    match ofHex hex, items.mapM parseItem with
+    | some bs, some its =>
+      match P.run (readStream its) bs with
+      | some (recs, rest) =>
+        s!"ok {rest.length} " ++ " ".intercalate ((its.zip recs).map fun (it, r) => showRec it.1.fieldNames r)
+      | none => "fail"
+    | _, _ => "bad-op"
+  | ["V", c, k, hex] =>
+    match parseNat c, ofHex k, ofHex hex with
+    | some c, some k, some bs => s!"{if existsKey c k bs then 1 else 0} {hexOf (getValue c k bs)}"
+    | _, _, _ => "bad-op"
+  | ["I", v] =>
+    match parseInt v with
+    | some v => hexOf (((setMcallerUrlHash v (fun _ => .null)) "McallerUrl").asStr)
+    | none => "bad-op"
+  | ["H", v, ver] =>
+    match parseInt v, parseInt ver with
+    | some v, some ver =>
+      match UdpTxEndPack.process ver ((setMcallerUrlHash v UdpTxEndPack.freshRec).set "McallerUrlHash" (.int 0)) with
+      | some st => showVal (st "McallerUrlHash")
+      | none => "panic"
+    | _, _ => "bad-op"
+  | ["C", b] =>
+    let st := setStaticContents (b == "1") (fun _ => .null)
+    s!"{showVal (st "IsStatic")} {hexOf (st "IsStaticContents").asStr}"
   | ["W", t, ver, rec] =>
     match findPack t, parseInt ver, parseRec rec with
     | some t, some ver, some x => hexOf (t.layout.write ver x)
